@@ -326,6 +326,11 @@ PYCLASS = {"TNone": None, "TInt": int, "TFloat": float, "TStr": str, "TList": li
 
 def field_to_py(f, objs):
     from eliot import Field
+    if f["kind"] == "types" and len(f["classes"]) == 1 and f["extra"] == "XNone" and f["classes"][0] != "TNone" \
+            and sum(map(ord, f["key"])) % 2 == 0:
+        # the shorthand: eliot.fields(name=type); other definitions in this process use the same names with other types
+        from eliot import fields as _fields
+        return _fields(**{f["key"]: PYCLASS[f["classes"][0]]})[0]
     if f["kind"] == "types":
         return Field.for_types(f["key"], [PYCLASS[t] for t in f["classes"]], "", _py_extra(f["extra"]))
     if f["kind"] == "value":
